@@ -214,6 +214,56 @@ theorem glrd_refusal (l r d : Int) (ds : List Draw) (e : Err) (h : leftRegular l
 example : ∃ G, leftRegular 2 3 2 [.sample [3, 1], .sample [2, 3]] = .ok G [] ∧ G.leftDeg 1 = 2 ∧ G.leftDeg 2 = 2 :=
   ⟨_, rfl, rfl, rfl⟩
 
+/-! #### `glrd` with `r > sys.maxsize` (the rejection loop `while len(neighbours) < d:
+neighbours.add(random.randint(1, r))`)
+
+`glrd_left_regular` and `glrd_refusal` above speak about EVERY `r`: `leftRegular` takes the
+`random.sample` branch for `r ≤ sysMaxsize = 2^63 − 1` and the rejection loop above it. -/
+
+/-- non-vacuity on the new branch: `r = 2^63`, a repeated value (`5`) is consumed and not added -/
+example : ∃ G, leftRegular 1 (2 ^ 63) 2 [.randint 5, .randint 5, .randint (2 ^ 63)] = .ok G [] ∧
+    G.leftDeg 1 = 2 ∧ G.edges = [(1, 5), (1, 2 ^ 63)] := ⟨_, rfl, rfl, by decide⟩
+/-- the boundary: `r = 2^63 − 1` still asks `random.sample`, `r = 2^63` does not -/
+example : (2 ^ 63 - 1 : Nat) ≤ sysMaxsize ∧ ¬ (2 ^ 63 : Nat) ≤ sysMaxsize := by decide
+/-- a value outside `[1, r]` is not a legal `randint(1, r)` draw; nor is a `sample` draw; and the
+loop cannot end without `d` distinct values -/
+example : leftRegular 1 (2 ^ 63) 2 [.randint 5, .randint (2 ^ 63 + 1)] = .stuck := rfl
+example : leftRegular 1 (2 ^ 63) 2 [.randint 5, .randint 0] = .stuck := rfl
+example : leftRegular 1 (2 ^ 63) 2 [.sample [5, 6]] = .stuck := rfl
+example : leftRegular 1 (2 ^ 63) 2 [.randint 5, .randint 5, .randint 5] = .stuck := rfl
+
+/-- the rejection loop ends on every draw list that starts with `need` fresh legal values … -/
+theorem glrd_rejection_ends (r : Int) (vs : List Nat) (fuel : Nat) (acc : List Nat) (rest : List Draw)
+    (hfuel : vs.length ≤ fuel) (hnd : vs.Nodup) (hdisj : ∀ v ∈ vs, v ∉ acc)
+    (hmem : ∀ v ∈ vs, 1 ≤ v ∧ (v : Int) ≤ r) :
+    distinctRandints r fuel vs.length acc (vs.map (fun (v : Nat) => Draw.randint (v : Int)) ++ rest)
+      = .ok (vs.reverse ++ acc) rest := distinctRandints_complete r vs fuel acc rest hfuel hnd hdisj hmem
+
+/-- … and a repeat of a value already collected costs one draw and nothing else -/
+theorem glrd_rejection_repeat (r : Int) (fuel need : Nat) (acc : List Nat) (v : Nat) (ds : List Draw)
+    (hv : v ∈ acc) (hv1 : 1 ≤ v ∧ (v : Int) ≤ r) :
+    distinctRandints r (fuel + 1) (need + 1) acc (Draw.randint (v : Int) :: ds)
+      = distinctRandints r fuel (need + 1) acc ds := distinctRandints_skip r fuel need acc v ds hv hv1
+
+example : distinctRandints 9 3 2 [] [.randint 4, .randint 4, .randint 7] = .ok [7, 4] [] := rfl
+
+/-- for every `r > sys.maxsize` (and every `l, d ≥ 0`) there is a legal draw list on which
+`bipartite_random_left_regular(l, r, d)` returns: the draws `1, …, min(r, d)` for each left vertex -/
+theorem glrd_huge_r_returns (l r d : Int) (hl : 0 ≤ l) (hd : 0 ≤ d) (hbig : (sysMaxsize : Int) < r) :
+    ∃ G, leftRegular l r d (glrdEasyDraws l.toNat (min r d).toNat) = .ok G [] :=
+  leftRegular_returns l r d hl hd hbig
+
+example : glrdEasyDraws 2 2 = [.randint 1, .randint 2, .randint 1, .randint 2] := rfl
+
+/-- what the compiled driver runs for `r > sys.maxsize` (op `gb_glrd_big`: the model's graph
+object has an `r + 1`-entry right adjacency table, the code a `dict`) is the model's run minus
+that table -/
+theorem glrd_driver_run (l r d : Int) (ds : List Draw) :
+    leftRegularNoRadj l r d ds = outMap dropRadj (leftRegular l r d ds) ∧
+    (∀ G : BipG, (dropRadj G).edges = G.edges ∧ (dropRadj G).numberOfEdges = G.numberOfEdges ∧
+      (dropRadj G).l = G.l ∧ (dropRadj G).r = G.r) :=
+  ⟨leftRegularNoRadj_eq l r d ds, fun _ => ⟨rfl, rfl, rfl, rfl⟩⟩
+
 /-- T-C15.2c `glrp`: `bipartite_random(L, R, p)` returns a consistent `(L, R)` graph; with `p = 1`
 the complete one -/
 theorem glrp_spec (L R pn : Int) (pd : Nat) (ds rest : List Draw) (G : BipG)
